@@ -30,8 +30,9 @@ LEVEL = {
             "order and in child interpreters with other hash seeds: within the property's quantifier this is a complete check.",
             "literal truth tables mc/ref/logic4.py"),
     "C04": ("Every in-domain valid expression AST up to 4 (thorough 5) leaves x every assignment in {F,U,UNKNOWN}^k, through both entry points, "
-            "through the shipped and user-style evaluators and under all completion orders of suspending evaluators, against the compositional "
-            "reference evaluator.", "reference evaluator R3 (mc/ref/reqeval.py), R1, R8; the parse tree is the implementation's (C01's concern)"),
+            "through the shipped (DictBased, ContentEvaluationResult based with fresh / shared data object, JsonFile) and user-style evaluators, "
+            "with keys in every relative order, flat chains up to 21 (33) keys, depth-2 histories (a first operation on a valid or invalid expression, "
+            "then every evaluation) and under all completion orders of suspending evaluators, against the compositional reference evaluator.", "reference evaluator R3 (mc/ref/reqeval.py), R1, R8; the parse tree is the implementation's (C01's concern)"),
     "C05": ("Metamorphic relations (hint / FC / brackets / swap / UNKNOWN refinement) at every position of every base expression up to 3 (4) leaves "
             "x all assignments: implementation against itself, no expected values.", "the AST enumerator; the relations as stated in the property"),
     "C06": ("Every in-domain AST (valid and invalid) up to 3 (4) leaves x all requirement and format assignments x three AHB wrappings; the "
@@ -39,7 +40,8 @@ LEVEL = {
     "C07": ("Every valid expression with FC keys up to 4 (5) leaves x all RC assignments x all FC truth assignments; the returned string is re-parsed "
             "by the reference parser and its truth table compared with the direct reading.", "R2, R3; interpretation I1 (two accepted readings)"),
     "C08": ("Every FC expression up to 4 (5) leaves with every key labelling x all truth assignments, through the transformer, the async entry point, "
-            "the shipped evaluators and all completion orders; Boolean value under the documented precedence + message iff unfulfilled.", "R2 for the "
+            "the shipped evaluators, plain / coroutine / mixed evaluate methods, shipped 931-935 next to custom keys, flat chains up to 21 (33) "
+            "key occurrences and all completion orders; Boolean value under the documented precedence + message iff unfulfilled.", "R2 for the "
             "documented precedence"),
     "C09": ("Part sequences of 1-5 parts over all indicator spellings, whitespace and a 23-expression menu x content evaluation results, plus every "
             "ordered pair of an 18-expression menu (history); split and selection against the reference splitter and the parts' own evaluations.",
@@ -50,23 +52,28 @@ LEVEL = {
             "hashing; the invariant 'every parser result equals the cold-state snapshot' is evaluated in every state.", "the cold-state snapshot "
             "taken through the public functions; whitespace-padded spellings give identical trees"),
     "C12": ("Stateless DFS over ALL completion orders (plus bounded early/batched completions) of the awaitables ahbicht gathers, on a virtual event "
-            "loop that owns the only scheduling nondeterminism; every schedule's result equals the zero-yield baseline.", "mc/vloop.py; asyncio "
+            "loop that owns the only scheduling nondeterminism; every schedule's result equals the zero-yield baseline; the baseline itself is judged by absolute oracles (reference value, R6 substitution, "
+            "solo runs of concurrent evaluations, no data handed to two evaluations). 11 harnesses incl. the library's CER-based evaluators, "
+            "two format versions behind one provider and user-style evaluators with plain + coroutine methods.", "mc/vloop.py; asyncio "
             "exposes no other nondeterminism to this library"),
     "C13": ("Every AHB tree shape up to 5/6 nodes x every labelling from a 3-4 class menu, chains, wide and equal-name nodes x both flags, against the "
-            "reference walk (document order, pruning, dominance tables, NotImplementedError rule).", "R7 (mc/ref/validation.py); the node's own "
+            "reference walk (document order, pruning, dominance tables, NotImplementedError rule); plus trees with siblings under all completion "
+            "orders of suspending evaluators (virtual event loop).", "R7 (mc/ref/validation.py); the node's own "
             "evaluation is taken from the real evaluate_ahb_expression_tree"),
     "C14": ("Every tree shape up to 4 (5) nodes x every labelling containing SOLL x both flags: flag run == run on the rewritten AHB (both flags), "
             "four entry points (deep, segment level on a group and on a segment root, segment), plus call sequences in one context. Metamorphic, no expected values.", "R5 for the rewriting"),
     "C15": ("All completion orders for AHBs with 2-3 free-text elements in 7 layouts, shared FC key, package-delivered FCs, shipped constraints, "
             "ambient context preset: every element's result equals its solo validation and echoes its own input.", "mc/vloop.py"),
     "C16": ("Fault enumeration: every non-empty SUBSET of fault sites (nodes and pool entries) of every tree shape up to 4 (5) nodes carries one of 9 "
-            "invalid expressions; all other nodes equal the 'Kann' run.", "differential against the implementation on the 'Kann' AHB; I4"),
-    "C17": ("All pools of size 0-3 (4) over an 8-entry menu x all inputs x segment status x two entry points, wide pools, changing package tables; "
+            "invalid expressions; all other nodes equal the 'Kann' run; plus every fault site of 4 shapes with suspending evaluators under all "
+            "completion orders (<= 2 / 4 deviations).", "differential against the implementation on the 'Kann' AHB; I4"),
+    "C17": ("All pools of size 0-3 (4) over an 8-entry menu x all inputs x segment status x two entry points, wide pools, changing package tables, pools with suspending evaluators under all completion orders; "
             "offered list (ordered), acceptance, flagging, forbidden rule.", "R7.pool_result; own evaluations from the real evaluator"),
-    "C18": ("Every key 0..3000 (+ edge forms), every 1-2 (3) atom expression x flags, all pairs for additivity, all (m,n) up to 4 (6) for the "
+    "C18": ("Every key 0..3000 (+ edge forms), every 1-2 (3) atom expression x flags x two package tables (one whose packages carry time conditions), all pairs for additivity, all (m,n) up to 4 (6) for the "
             "Cartesian product.", "R8 (literal ranges), R6+R2 for expected keys"),
     "C19": ("Every tree produced for all expressions up to 3 (4) atoms (condition, AHB, resolved), every generated CER, extracts, the field-value "
-            "product of the result classes, results of the C09 menu under all permutations: load(dump(x)) == x and evaluate(load(dump(t))) == evaluate(t).",
+            "product of the result classes, results of the C09 menu under all permutations, whitespace variants inside AHB condition parts, deep trees, and every sequence of <= 3 (4) "
+            "schema operations (rejected loads, validate, concise schemata) followed by round trips: load(dump(x)) == x and evaluate(load(dump(t))) == evaluate(t).",
             "equality as defined by the model classes; trees compared with token types"),
     "C20": ("Every second of DST switch days, a window around every whole hour of every day 1996-2037 (thorough: every minute), every offset on a "
             "15-/1-minute grid in 10 spellings for critical instants, all short garbage strings and boundary field products.", "R9 integer EU-rule "
